@@ -187,6 +187,12 @@ def parseGroup (o : Oracle) (g : NextGroup) (input : Toks) :
       | .ok (ops, next, rest) =>
         .ok ((⟨ar.ctor, g.deferred, g.mv, (ops.getD []).map (mkOperand o ar.kind)⟩, ops.getD []), next, rest)
 
+/-- `>>>` opens a wrapper, `<<<` closes one -/
+def mvDelta : Move → Int
+  | .wrap => 1
+  | .unwrap => -1
+  | .none => 0
+
 /-- the chain builder's loop -/
 def buildChain (o : Oracle) : Nat → NextGroup → Toks → List Member → Option BranchPat → Int → Bool →
     Except ParseErr (Branch × Toks)
@@ -213,7 +219,7 @@ def buildChain (o : Oracle) : Nat → NextGroup → Toks → List Member → Opt
         match next with
         | some nx =>
           let w0 : Int := if nx.deferred then 0 else wcount
-          let w1 : Int := w0 + (match nx.mv with | .wrap => 1 | .unwrap => -1 | .none => 0)
+          let w1 : Int := w0 + mvDelta nx.mv
           if w1 < 0 then .error .unexpectedUnwrap
           else buildChain o fuel nx rest members' pat' w1 false
         | none =>
